@@ -1,4 +1,5 @@
-import OW.Proofs.NdC02Bulk
+import OW.Proofs.NdC02Zip
+import OW.Proofs.NdC02Slice
 /-!
 C02 — bulk array operations equal their element-by-element, row-major definition; contiguity; integer helpers.
 
@@ -310,6 +311,275 @@ theorem extremum_spec (better : α → α → Bool) (h : Heap α) (a : Arr) (hr 
   | nil => simp at hl; omega
   | cons v0 rest => exact ⟨v0, rest, hv, NdC02.extremum_eq g better hv⟩
 
+/-- C3. The whole-array helpers of `data/arrayops.go` (scale, add-to, apply-function; modelled by
+`zipWithInto f`: `dest[k] = f dest[k] source[k]`, including the write-back `storeUnrolled` through a flat reshaped
+view) on reachable, well-windowed arrays of the same shape held in DIFFERENT storages: for every contiguity
+combination of source and destination and for both back-ends (Go/C, for either array) the call never panics and
+the resulting heap is exactly the one obtained by visiting the elements one by one in row-major order
+(`setAll` over `rowMajor`) with the values `f dest_k source_k` computed from the pre-state.
+Pointwise: destination element `k` becomes `f dest_k source_k` for every `k`; the source is unchanged; no storage
+changes length. -/
+theorem zipWithInto_spec (f : α → α → α) (h : Heap α) (dest source : Arr) (hrd : Reach dest.v) (hrs : Reach source.v)
+    (okd : ArrOK h dest) (oks : ArrOK h source) (hdims : source.v.dims = dest.v.dims)
+    (hsid : dest.sid ≠ source.sid) :
+    ∃ dv sv h', NdC02.getAll h dest (NdC02.rowMajor dest.v.dims) = .ok dv ∧
+      NdC02.getAll h source (NdC02.rowMajor dest.v.dims) = .ok sv ∧
+      zipWithInto f h dest source = .ok h' ∧
+      NdC02.setAll h dest (NdC02.rowMajor dest.v.dims) (List.zipWith f dv sv) = .ok h' ∧
+      (∀ k : Nat, (k : Int) < dest.v.size → ∃ dx sx,
+        get h dest (unravel (k : Int) dest.v.dims) = .ok dx ∧ get h source (unravel (k : Int) dest.v.dims) = .ok sx ∧
+        get h' dest (unravel (k : Int) dest.v.dims) = .ok (f dx sx)) ∧
+      (∀ j, InBounds j source.v.dims → get h' source j = get h source j) ∧
+      SameShape h h' ∧ ArrOK h' dest ∧ ArrOK h' source := by
+  have gd := reach_geo hrd
+  have gs := reach_geo hrs
+  have hp := gd.pos_dims
+  obtain ⟨dv, hdv, hld⟩ := NdC02.elems_ok gd okd
+  obtain ⟨sv, hsv, hls⟩ := NdC02.elems_ok gs oks
+  rw [hdims] at hsv hls
+  have hib := NdC02.rowMajor_inBounds hp
+  obtain ⟨h', hres, okd', oks', ss⟩ := NdC02.setAll_arrOK gd (b := source) (NdC02.rowMajor dest.v.dims)
+    (List.zipWith f dv sv) h okd oks hib
+  refine ⟨dv, sv, h', hdv, hsv, ?_, hres, ?_, ?_, ss, okd', oks'⟩
+  · rw [NdC02.zipWithInto_eq f gd gs okd oks hdims hsid hdv hsv, hres]
+  · intro k hk
+    obtain ⟨dx, hdx1, hdx2⟩ := NdC02.elems_getElem hdv k hk
+    have hsv' : NdC02.getAll h source (NdC02.rowMajor source.v.dims) = .ok sv := by rw [hdims]; exact hsv
+    obtain ⟨sx, hsx1, hsx2⟩ := NdC02.elems_getElem hsv' k (by rw [hdims]; exact hk)
+    rw [hdims] at hsx2
+    refine ⟨dx, sx, hdx2, hsx2, ?_⟩
+    have hidx := NdC02.rowMajorFrom_getElem? dest.v.dims 0 (product dest.v.dims).toNat k
+      (by have : (k : Int) < product dest.v.dims := hk; omega)
+    rw [Nat.zero_add] at hidx
+    exact NdC02.setAll_get gd _ _ h h' okd hib (NdC02.rowMajor_nodup hp) hres k _ (f dx sx) hidx
+      (by simp [List.getElem?_zipWith, hdx1, hsx1])
+  · intro j hj
+    exact NdC02.setAll_get_other gd gs (fun e => hsid e.symm) hj _ _ h h' okd oks hib hres
+
+/-- C3. `Apply(loc, dim, step, vals)` on a reachable, well-windowed Go-backed array, for a run that lies inside the
+array (`SliceOK`: `0 ≤ loc`, `step ≥ 1`, `vals` non-empty, last written index in bounds): whichever path the
+contiguity test of the target slice selects, the result is the element loop
+`Set(loc[dim ↦ loc[dim] + i·step], vals[i])`, `i = 0, 1, …` (`setAll` over `runIdxs`). In particular the contiguous
+fast path (block copy `writeRun` into the aliased window) and the element loop produce the same heap. -/
+theorem apply_paths_agree (h : Heap α) (a : Arr) (hr : Reach a.v) (ok : ArrOK h a) (hgo : a.isC = false)
+    (loc : Idx) (dim step : Int) (vals : List α) (h0 : 0 ≤ dim) (h1 : dim < a.v.dims.length)
+    (hok : SliceOK a.v.dims loc (NdC02.applyDims a dim vals.length) (NdC02.applySteps a dim step)) :
+    ∃ start sl, loc[dim.toNat]? = some start ∧
+      slice a loc (NdC02.applyDims a dim vals.length) (some (NdC02.applySteps a dim step)) = .ok sl ∧
+      -- the result, whichever path is taken, is the element loop
+      apply h a loc dim step vals =
+        NdC02.setAll h a (NdC02.runIdxs loc dim.toNat start step 0 vals.length) vals ∧
+      apply.go a loc step dim.toNat start h 0 vals =
+        NdC02.setAll h a (NdC02.runIdxs loc dim.toNat start step 0 vals.length) vals ∧
+      -- fast path taken iff the slice is contiguous, and then it is the block write
+      (sl.v.contiguous = .ok true →
+        apply h a loc dim step vals = .ok (writeRun h a.sid (a.base + sl.v.start).toNat vals) ∧
+        apply.go a loc step dim.toNat start h 0 vals = .ok (writeRun h a.sid (a.base + sl.v.start).toNat vals)) ∧
+      (sl.v.contiguous = .ok false → apply h a loc dim step vals = apply.go a loc step dim.toNat start h 0 vals) := by
+  obtain ⟨start, sl, hl, hsl, _, _, hall, hloop, hfast, hslow⟩ :=
+    NdC02.apply_go_spec (h := h) (vals := vals) (reach_geo hr) ok hgo h0 h1 hok
+  exact ⟨start, sl, hl, hsl, hall, hloop, fun hc => ⟨hfast hc, by rw [hloop, ← hall, hfast hc]⟩, hslow⟩
+
+/-- C3 (C back-end). `Apply` on a C-backed array is the element loop (there is no fast path). -/
+theorem apply_c_loop (h : Heap α) (a : Arr) (hC : a.isC = true) (loc : Idx) (dim step start : Int) (vals : List α)
+    (h0 : 0 ≤ dim) (h1 : dim < a.v.dims.length) (hl : loc[dim.toNat]? = some start) :
+    apply h a loc dim step vals = NdC02.setAll h a (NdC02.runIdxs loc dim.toNat start step 0 vals.length) vals :=
+  NdC02.apply_c_spec hC h0 h1 hl
+
+/-- C3. `ApplySlice(loc, step, src)` for a reachable destination and source (window conditions, an in-bounds
+request, **source and destination in different storages** — in the overlapping case the fast path is a `memmove`
+and the loop a sequential copy, which genuinely differ, so it is excluded by hypothesis): on every path — Go
+contiguous fast path `copy(slice.Unroll(), vals.Unroll())` with an aliased or a gathered source, Go element loop,
+C element loop — the resulting heap is the one of the element loop `copyLoop` on the destination sub-array `sl`,
+which is the sequential `Set` of the source's row-major elements (read in the pre-state) over the row-major indices
+of `sl`. Pointwise: element `k` of `sl` becomes element `k` of the source; the source is unchanged. -/
+theorem applySlice_paths_agree (h : Heap α) (a src : Arr) (hr : Reach a.v) (ok : ArrOK h a) (hrs : Reach src.v)
+    (oks : ArrOK h src) (hsid : src.sid ≠ a.sid) (loc : Idx) (step : Option Idx)
+    (okS : SliceOK a.v.dims loc src.v.dims (stepOr a.v.dims.length step)) :
+    ∃ sl vals h', slice a loc src.v.dims step = .ok sl ∧ Reach sl.v ∧ sl.v.dims = src.v.dims ∧
+      NdC02.getAll h src (NdC02.rowMajor src.v.dims) = .ok vals ∧
+      applySlice h a loc step src = .ok h' ∧
+      copyLoop h sl src src.v.dims = .ok h' ∧
+      NdC02.setAll h sl (NdC02.rowMajor src.v.dims) vals = .ok h' ∧
+      (∀ k : Nat, (k : Int) < src.v.size → ∃ x, get h src (unravel (k : Int) src.v.dims) = .ok x ∧
+        get h' sl (unravel (k : Int) src.v.dims) = .ok x) ∧
+      (∀ j, InBounds j src.v.dims → get h' src j = get h src j) ∧ SameShape h h' := by
+  have g := reach_geo hr
+  have gs := reach_geo hrs
+  obtain ⟨vals, hv, _⟩ := NdC02.elems_ok gs oks
+  obtain ⟨hslice, gS, hloop, hseq⟩ := NdC02.applySlice_loop g ok gs oks hsid okS hv
+  obtain ⟨hl1, _, hl3⟩ := okS.lengths
+  have hsl := sliceInto_eq g loc src.v.dims step hl1 hl3
+  have okSl : ArrOK h (dstSlice a loc src.v.dims step) := ⟨ok.store, ok.base_nonneg, ok.fits, ok.cfits⟩
+  have hib : ∀ i ∈ NdC02.rowMajor src.v.dims, InBounds i (dstSlice a loc src.v.dims step).v.dims :=
+    NdC02.rowMajor_inBounds gs.pos_dims
+  obtain ⟨h', hres, _, _, ss⟩ := NdC02.setAll_arrOK gS (b := src) (NdC02.rowMajor src.v.dims) vals h okSl oks hib
+  refine ⟨_, vals, h', hslice, Reach.slice hr okS hsl, rfl, hv, by rw [hseq, hres], by rw [← hloop, hseq, hres], hres,
+    ?_, ?_, ss⟩
+  · intro k hk
+    obtain ⟨x, hx1, hx2⟩ := NdC02.elems_getElem hv k hk
+    refine ⟨x, hx2, ?_⟩
+    have hidx := NdC02.rowMajorFrom_getElem? src.v.dims 0 (product src.v.dims).toNat k
+      (by have : (k : Int) < product src.v.dims := hk; omega)
+    rw [Nat.zero_add] at hidx
+    exact NdC02.setAll_get gS _ _ h h' okSl hib (NdC02.rowMajor_nodup gs.pos_dims) hres k _ x hidx hx1
+  · intro j hj
+    exact NdC02.setAll_get_other gS gs hsid hj _ _ h h' okSl oks hib hres
+
+/-- C3. `CopyFrom(other)` for two reachable, well-windowed arrays of the same shape in different storages: never
+panics; the resulting heap is exactly the sequential `a.Set(idx, other.Get(idx))` over the row-major indices (values
+read in the pre-state), whichever path (`copy` of unrolled slices, or the element loop) is taken and for both
+back-ends; afterwards element `k` of `a` is element `k` of `other` for every `k`, and `other` is unchanged. -/
+theorem copyFrom_spec (h : Heap α) (a other : Arr) (hr : Reach a.v) (ok : ArrOK h a) (hro : Reach other.v)
+    (oko : ArrOK h other) (hsid : other.sid ≠ a.sid) (hshape : other.v.dims = a.v.dims) :
+    ∃ vals h', NdC02.getAll h other (NdC02.rowMajor a.v.dims) = .ok vals ∧
+      copyFrom h a other = .ok h' ∧
+      copyLoop h a other a.v.dims = .ok h' ∧
+      NdC02.setAll h a (NdC02.rowMajor a.v.dims) vals = .ok h' ∧
+      (∀ k : Nat, (k : Int) < a.v.size → ∃ x, get h other (unravel (k : Int) a.v.dims) = .ok x ∧
+        get h' a (unravel (k : Int) a.v.dims) = .ok x) ∧
+      (∀ j, InBounds j other.v.dims → get h' other j = get h other j) ∧ SameShape h h' := by
+  have g := reach_geo hr
+  have okS : SliceOK a.v.dims (a.v.newIndex 0) other.v.dims (stepOr a.v.dims.length none) := by
+    rw [hshape]; exact sliceOK_zero_ones a.v.dims g.pos_dims
+  obtain ⟨sl, vals, h', hslice, _, _, hv, hres, hloop, hseq, hpt, hsrc, ss⟩ :=
+    applySlice_paths_agree h a other hr ok hro oko hsid (a.v.newIndex 0) none okS
+  have hsl : sl = a := by
+    have e1 := (NdC02.applySlice_loop g ok (reach_geo hro) oko hsid okS hv).1
+    rw [hslice] at e1
+    injection e1 with e1
+    rw [e1, hshape, NdC02.dstSlice_self g]
+  subst hsl
+  rw [hshape] at hv hloop hseq hpt
+  exact ⟨vals, h', hv, hres, hloop, hseq, fun k hk => hpt k (by simpa [View.size, hshape] using hk), hsrc, ss⟩
+
 end
+
+/-! ## Non-vacuity: the hypotheses are met, and the operations are evaluated, on concrete views -/
+namespace Ex
+
+/-- storage 0: a 3×4 array `0..11`; storage 1: a 3×2 array `100..600` -/
+def heap : Heap Int := [[0, 1, 2, 3, 4, 5, 6, 7, 8, 9, 10, 11], [100, 200, 300, 400, 500, 600]]
+/-- the 3×4 root on storage 0 (Go-backed) -/
+def root : Arr := { v := rootView [3, 4] 0, sid := 0, base := 0, len := 12, isC := false }
+/-- the 3×2 root on storage 1 (Go-backed) and the same buffer seen as a C array -/
+def small : Arr := { v := rootView [3, 2] 0, sid := 1, base := 0, len := 6, isC := false }
+def smallC : Arr := { small with isC := true }
+/-- a row-gapped slice `[0:3, 1:3]`, a column `[0:3, 2]` (1-wide dimension), a stepped slice `[0:3:2, 0:4:2]`,
+whole rows `[1:3, :]`, a single element `[1, 2]` -/
+def rowGap : Arr := { root with v := sliceView root.v [0, 1] [3, 2] none }
+def col : Arr := { root with v := sliceView root.v [0, 2] [3, 1] none }
+def stepped : Arr := { root with v := sliceView root.v [0, 0] [2, 2] (some [2, 2]) }
+def rows : Arr := { root with v := sliceView root.v [1, 0] [2, 4] none }
+def single : Arr := { root with v := sliceView root.v [1, 2] [1, 1] none }
+
+theorem reach_root : Reach root.v := NdC02.reach_rootView (by decide) (by simp [Pos])
+theorem reach_small : Reach small.v := NdC02.reach_rootView (by decide) (by simp [Pos])
+theorem reach_rowGap : Reach rowGap.v := .slice reach_root (loc := [0, 1]) (dims := [3, 2]) (step := none)
+  (by simp [root, rootView, SliceOK, stepOr, uniform]) rfl
+theorem reach_col : Reach col.v := .slice reach_root (loc := [0, 2]) (dims := [3, 1]) (step := none)
+  (by simp [root, rootView, SliceOK, stepOr, uniform]) rfl
+theorem reach_stepped : Reach stepped.v := .slice reach_root (loc := [0, 0]) (dims := [2, 2]) (step := some [2, 2])
+  (by simp [root, rootView, SliceOK, stepOr]) rfl
+theorem reach_rows : Reach rows.v := .slice reach_root (loc := [1, 0]) (dims := [2, 4]) (step := none)
+  (by simp [root, rootView, SliceOK, stepOr, uniform]) rfl
+theorem reach_single : Reach single.v := .slice reach_root (loc := [1, 2]) (dims := [1, 1]) (step := none)
+  (by simp [root, rootView, SliceOK, stepOr, uniform]) rfl
+
+theorem ok_root : ArrOK heap root := ⟨⟨_, rfl, by decide⟩, by decide, by decide, by simp [root]⟩
+theorem ok_small : ArrOK heap small := ⟨⟨_, rfl, by decide⟩, by decide, by decide, by simp [small]⟩
+theorem ok_smallC : ArrOK heap smallC := ⟨⟨_, rfl, by decide⟩, by decide, by decide, fun _ => by decide⟩
+theorem ok_rowGap : ArrOK heap rowGap := ⟨⟨_, rfl, by decide⟩, by decide, by decide, by simp [rowGap, root]⟩
+
+-- B1: verdicts of `Contiguous()`
+example : rowGap.v.contiguous = .ok false ∧ col.v.contiguous = .ok false ∧ stepped.v.contiguous = .ok false ∧
+    rows.v.contiguous = .ok true ∧ single.v.contiguous = .ok true ∧ root.v.contiguous = .ok true := by decide
+-- B1 applied: the whole rows `[1:3, :]` are the 8 cells from address 4
+example : ∀ k, 0 ≤ k → k < 8 → rows.v.index (unravel k [2, 4]) = .ok (4 + k) :=
+  (contiguous_iff reach_rows).1.mp rfl
+-- B1 applied: the column is not adjacent in storage
+example : ¬ ∀ k, 0 ≤ k → k < col.v.size → col.v.index (unravel k col.v.dims) = .ok (col.v.start + k) :=
+  fun hall => absurd ((contiguous_iff reach_col).1.mpr hall) (by decide)
+
+-- C1: Unroll gathers a gapped / stepped view row-major, aliases a contiguous Go view, copies a C view
+example : (unroll heap rowGap >>= sliceVals heap) = .ok [1, 2, 5, 6, 9, 10] := by decide
+example : (unroll heap stepped >>= sliceVals heap) = .ok [0, 2, 8, 10] := by decide
+example : (unroll heap col >>= sliceVals heap) = .ok [2, 6, 10] := by decide
+example : unroll heap rows = .ok (.alias 0 4 8) := rfl
+example : unroll heap single = .ok (.alias 0 6 1) := rfl
+example : unroll heap smallC = .ok (.fresh [100, 200, 300, 400, 500, 600]) := rfl
+
+-- C2: Reshape
+example : reshape heap rows [3] = .ok (heap, .inl "size-mismatch") := by decide
+example : reshapeFast heap rowGap [6] = .ok (heap, .inl "not-contiguous") := by decide
+example : reshape heap rows [8] = .ok (heap, .inr (NdC02.aliasArr rows [8])) := by decide
+example : reshape heap rowGap [2, 3] =
+    .ok (heap ++ [[1, 2, 5, 6, 9, 10]], .inr (NdC02.freshArr heap [1, 2, 5, 6, 9, 10] [2, 3])) := by decide
+example : reshape heap smallC [6] = .ok (heap, .inr (NdC02.cAliasArr smallC [6])) := by decide
+
+-- C3: Maximum / Minimum of a stepped view
+example : extremum (fun v r => decide (v > r)) heap stepped = .ok 10 ∧
+    extremum (fun v r => decide (v < r)) heap stepped = .ok 0 := by decide
+
+-- C3: add-to, every contiguity / back-end combination used below has source and destination in different storages
+example : zipWithInto (· + ·) heap rowGap small =
+    .ok [[0, 101, 202, 3, 4, 305, 406, 7, 8, 509, 610, 11], [100, 200, 300, 400, 500, 600]] := by decide
+example : zipWithInto (· + ·) heap small rowGap =
+    .ok [[0, 1, 2, 3, 4, 5, 6, 7, 8, 9, 10, 11], [101, 202, 305, 406, 509, 610]] := by decide
+example : zipWithInto (· + ·) heap smallC rowGap =
+    .ok [[0, 1, 2, 3, 4, 5, 6, 7, 8, 9, 10, 11], [101, 202, 305, 406, 509, 610]] := by decide
+example : zipWithInto (fun _ s => 2 * s) heap rowGap smallC =
+    .ok [[0, 200, 400, 3, 4, 600, 800, 7, 8, 1000, 1200, 11], [100, 200, 300, 400, 500, 600]] := by decide
+
+-- C3: Apply — a row segment takes the fast path, a column segment the element loop
+example : apply heap root [1, 1] 1 1 [70, 71, 72] =
+    .ok [[0, 1, 2, 3, 4, 70, 71, 72, 8, 9, 10, 11], [100, 200, 300, 400, 500, 600]] := by decide
+example : apply heap root [0, 1] 0 1 [70, 71, 72] =
+    .ok [[0, 70, 2, 3, 4, 71, 6, 7, 8, 72, 10, 11], [100, 200, 300, 400, 500, 600]] := by decide
+example : SliceOK root.v.dims [1, 1] (NdC02.applyDims root 1 3) (NdC02.applySteps root 1 1) := by
+  simp [root, rootView, NdC02.applyDims, NdC02.applySteps, uniform, SliceOK]
+
+-- C3: CopyFrom / ApplySlice into a gapped view
+example : copyFrom heap rowGap small =
+    .ok [[0, 100, 200, 3, 4, 300, 400, 7, 8, 500, 600, 11], [100, 200, 300, 400, 500, 600]] := by decide
+example : applySlice heap root [0, 2] none small =
+    .ok [[0, 1, 100, 200, 4, 5, 300, 400, 8, 9, 500, 600], [100, 200, 300, 400, 500, 600]] := by decide
+
+-- the theorems instantiated (hypotheses discharged) on these arrays
+example := unroll_spec heap rowGap reach_rowGap ok_rowGap
+example := reshape_spec heap rowGap reach_rowGap ok_rowGap [2, 3]
+example := extremum_spec (fun v r => decide (v > r)) heap rowGap reach_rowGap ok_rowGap
+example := zipWithInto_spec (· + ·) heap rowGap small reach_rowGap reach_small ok_rowGap ok_small rfl (by decide)
+example := zipWithInto_spec (· + ·) heap smallC rowGap reach_small reach_rowGap ok_smallC ok_rowGap rfl (by decide)
+example := copyFrom_spec heap rowGap small reach_rowGap ok_rowGap reach_small ok_small (by decide) rfl
+example := applySlice_paths_agree heap root small reach_root ok_root reach_small ok_small (by decide) [0, 2] none
+  (by simp [root, small, rootView, SliceOK, stepOr, uniform])
+example := apply_paths_agree heap root reach_root ok_root rfl [1, 1] 1 1 [70, 71, 72] (by decide) (by decide)
+  (by simp [root, rootView, NdC02.applyDims, NdC02.applySteps, uniform, SliceOK])
+example := contiguous_dense reach_stepped
+
+
+/-! ### why the two-array theorems exclude overlapping storages (same `sid`)
+
+`r4` is a 4-element root, `hi = r4[1:4]`, `lo = r4[0:3]` overlap in storage 0. -/
+def heap4 : Heap Int := [[1, 2, 3, 4]]
+def r4 : Arr := { v := rootView [4] 0, sid := 0, base := 0, len := 4, isC := false }
+def hi : Arr := { r4 with v := sliceView r4.v [1] [3] none }
+def lo : Arr := { r4 with v := sliceView r4.v [0] [3] none }
+
+/-- `zipWithInto_spec` needs `dest.sid ≠ source.sid`: on overlapping views the running sum sees its own writes
+(`2+1, 3+3, 4+6`), which is not `f dest_k source_k` of the pre-state (`2+1, 3+2, 4+3`). -/
+example : zipWithInto (· + ·) heap4 hi lo = .ok [[1, 3, 6, 10]] ∧
+    NdC02.setAll heap4 hi (NdC02.rowMajor [3]) (List.zipWith (· + ·) [2, 3, 4] [1, 2, 3]) = .ok [[1, 3, 5, 7]] := by
+  decide
+
+/-- `applySlice_paths_agree` / `copyFrom_spec` need `src.sid ≠ a.sid`: on overlapping views the Go fast path is a
+`memmove` (`1 1 2 3`) while the element loop — the only path of the C back-end — propagates the first element
+(`1 1 1 1`). -/
+example : copyFrom heap4 hi lo = .ok [[1, 1, 2, 3]] ∧
+    copyFrom heap4 { hi with isC := true } { lo with isC := true } = .ok [[1, 1, 1, 1]] ∧
+    copyLoop heap4 hi lo [3] = .ok [[1, 1, 1, 1]] := by decide
+
+end Ex
 
 end OW.Props.C02
